@@ -439,6 +439,11 @@ def run(ctx):
         "impl_oracle_failures": len(ctx.violations) + sum(h["count"] for h in ctx.known_hits), "model_diffs": uni.get("model_diffs", 0) + sol.get("model_diffs", 0) + inf.get("model_diffs", 0),
     }
     cov["argument_count(c03arity.rs)"] = arity_cov
+    # round 11: soundness of Sem w.r.t. Wt — the decidable hypothesis of `sem_preserves_types_partial` and the static-dispatch
+    # oracle on the real Core / Mono dumps of the C01 streams (tools/props/tsound.py)
+    from props import tsound
+    cov["type_soundness_of_Sem(sem_preserves_types_partial, traitcall_static_dispatch)"] = tsound.collect_and_evaluate(ctx)
+    ctx.assumptions += tsound.ASSUMPTIONS
     ctx.assumptions += [
         "Wt.errs (Model/Wt.lean) is our statement of type consistency of the IR; the signature environment is dumped from the real genv/monoenv/liftenv",
         "a callee annotation with the wildcard array length (array_get/array_set) is read as 'any length', as the typer's unifier does",
